@@ -95,11 +95,18 @@ theorem StackSound.height_at {W : VM P L} {hist : List (Entry P)} :
 
 /-! ### pushAll -/
 
-theorem pushAll_append (views : Nat → List (Tx P)) (ts : List (Tx P)) (t : Tx P) :
-    pushAll views (ts ++ [t]) = upd (pushAll views ts) t.1.acct (pushAll views ts t.1.acct ++ [t]) := by
-  induction ts generalizing views with
-  | nil => rfl
-  | cons x xs ih => simp [pushAll, ih]
+theorem pushAll_nil (views : Nat → List (Tx P)) : pushAll views [] = views := by
+  funext a; simp [pushAll]
+
+/-- appending transaction by transaction -/
+theorem pushAll_cons (views : Nat → List (Tx P)) (t : Tx P) (ts : List (Tx P)) :
+    pushAll views (t :: ts) = pushAll (upd views t.1.acct (views t.1.acct ++ [t])) ts := by
+  funext a
+  simp only [pushAll, upd, List.filter_cons]
+  by_cases ha : a = t.1.acct
+  · subst ha; simp
+  · have : (t.1.acct == a) = false := by simpa using fun h => ha h.symm
+    simp [ha, this]
 
 /-! ### addBlock -/
 
@@ -213,7 +220,7 @@ theorem consume_sound {W : VM P L} {hist : List (Entry P)} :
     intro views pool q ts hp hc
     simp only [consume, Option.some.injEq, Prod.mk.injEq] at hc
     obtain ⟨rfl, rfl⟩ := hc
-    exact ⟨trivial, hp, rfl⟩
+    exact ⟨trivial, by rw [pushAll_nil]; exact hp, rfl⟩
   | cons h hs ih =>
     intro views pool q ts hp hc
     obtain ⟨t, rest, ts', hpl, hid, hc', rfl⟩ := consume_cons hc
@@ -229,7 +236,7 @@ theorem consume_sound {W : VM P L} {hist : List (Entry P)} :
         exact ⟨fun x hx => hacct x (by simp [hx]), hst.2⟩
       · simp only [ha, if_false]; exact hp a
     obtain ⟨h1, h2, h3⟩ := ih hp' hc'
-    refine ⟨⟨by rw [hta]; exact hst.1, h1⟩, h2, ?_⟩
+    refine ⟨⟨by rw [hta]; exact hst.1, h1⟩, by rw [pushAll_cons]; exact h2, ?_⟩
     rw [List.map_cons, h3]
     show (t.1.acct, t.1.id) :: hs = h :: hs
     rw [hta, hid]
@@ -515,18 +522,9 @@ theorem ledger_of_hash {W1 W2 : VM P L} (hinit : W1.init = W2.init) (hcommit : W
 
 /-! ### an honest momentum is accepted whatever the pool holds -/
 
-theorem pushAll_eq_append (ts : List (Tx P)) :
-    ∀ (views : Nat → List (Tx P)) (a : Nat), pushAll views ts a = views a ++ pushAll (fun _ => []) ts a := by
-  induction ts with
-  | nil => intro views a; simp [pushAll]
-  | cons t ts ih =>
-    intro views a
-    simp only [pushAll]
-    rw [ih (upd views t.1.acct (views t.1.acct ++ [t])) a, ih (upd (fun _ => []) t.1.acct ([] ++ [t])) a]
-    simp only [upd]
-    by_cases ha : a = t.1.acct
-    · subst ha; simp
-    · simp [ha]
+theorem pushAll_eq_append (ts : List (Tx P)) (views : Nat → List (Tx P)) (a : Nat) :
+    pushAll views ts a = views a ++ pushAll (fun _ => []) ts a := by
+  simp [pushAll]
 
 theorem lastId_append_take {cf d r : List (Tx P)} : lastId (cf ++ (d ++ r).take d.length) = lastId (cf ++ d) := by
   rw [List.take_left']
@@ -596,7 +594,7 @@ theorem blockLoop_honest {W : VM P L} {U : Block → Prop} (hinj : ∀ b b', U b
         ∀ a, ∃ r, t'.pool a = pushAll done txs a ++ r := by
   intro txs
   induction txs with
-  | nil => intro t done hi _ _ hp; exact ⟨t, rfl, rfl, hi, hp⟩
+  | nil => intro t done hi _ _ hp; exact ⟨t, rfl, rfl, hi, by rw [pushAll_nil]; exact hp⟩
   | cons x xs ih =>
     intro t done hi hu hs hp
     obtain ⟨r, hr⟩ := hp x.1.acct
@@ -620,7 +618,7 @@ theorem blockLoop_honest {W : VM P L} {U : Block → Prop} (hinj : ∀ b b', U b
       · simp only [ha, if_false]; rw [h3 a ha]; exact hp a
     obtain ⟨t', g1, g2, g3, g4⟩ :=
       ih t1 _ (addBlock_inv h1 (hu x (by simp)) hi) (fun y hy => hu y (by simp [hy])) hs' hp'
-    refine ⟨t', ?_, by rw [g2, hh1], g3, g4⟩
+    refine ⟨t', ?_, by rw [g2, hh1], g3, by rw [pushAll_cons]; exact g4⟩
     simp only [List.map_cons, blockLoop, h1, g1]
 
 theorem consume_prefix :
@@ -635,9 +633,7 @@ theorem consume_prefix :
       intro a
       obtain ⟨r, hr⟩ := hp a
       refine ⟨r, ?_⟩
-      rw [hr]
-      simp only [pushAll]
-      rw [pushAll_eq_append]
+      rw [hr, pushAll_cons, pushAll_eq_append]
       simp only [upd, List.nil_append, List.append_assoc]
     obtain ⟨r, hr⟩ := hx x.1.acct
     simp only [if_true, List.singleton_append] at hr
